@@ -486,3 +486,49 @@ def diff(real, ref, path=""):
         for i, (e1, e2) in enumerate(zip(real["elems"], ref["elems"])):
             out.extend(diff(e1, e2, "%s[%d]" % (path, i)))
     return out
+
+
+# ------------------------------------------------------------------ C20: Equals / CopyFrom
+def logical_equal(ta, tb):
+    """Logical equality of two reference observations of the same structure (C20 statement: same
+    presence for every field, every present field reads equal, recursively / element by element).
+    Returns True / False, or None when the reference cannot decide (something undefined)."""
+    if ta["k"] != tb["k"]:
+        return False
+    if ta["k"] == "leaf":
+        if ta["ok"] is None or tb["ok"] is None:
+            return None
+        if not ta["ok"] or not tb["ok"]:
+            return None
+        if ta["value"] is None or tb["value"] is None:
+            return None
+        return ta["value"] == tb["value"]
+    if ta["k"] == "array":
+        if ta["count"] is None or tb["count"] is None:
+            return None
+        if ta["count"] != tb["count"]:
+            return False
+        res = True
+        for ea, eb in zip(ta["elems"], tb["elems"]):
+            q = logical_equal(ea, eb)
+            if q is False:
+                return False
+            if q is None:
+                res = None
+        return res
+    res = True
+    for (na, ha, oa), (nb, hb, ob) in zip(ta["fields"], tb["fields"]):
+        if ha is None or hb is None:
+            res = None
+            continue
+        if ha != hb:
+            return False
+        if ha == "T":
+            if oa["k"] == "leaf" and oa.get("complete") is None:
+                continue    # virtual field: equal by definition when the physical fields are
+            q = logical_equal(oa, ob)
+            if q is False:
+                return False
+            if q is None:
+                res = None
+    return res
